@@ -170,7 +170,7 @@ def run_exec(pid, tier, seed, emphasis, scns=("exec",), pre=None):
     vlib.tlc_check(chk, "H_Exec abstract life cycle, exhaustive (2 units)", os.path.join(SPEC, "H_ExecMC.tla"),
                    os.path.join(SPEC, "H_ExecMC.cfg"), timeout=600)
     vlib.tlc_check(chk, "H_Exec with migration, exhaustive (1 unit, 2 pools)", os.path.join(SPEC, "H_ExecMC.tla"),
-                   os.path.join(SPEC, "H_ExecMC2.cfg"), timeout=600)
+                   os.path.join(SPEC, "H_ExecMC2.cfg"), timeout=1200)
     exe = vlib.build_driver("d_kernel")
     n = 250 if quick else 4000
     per = 50 if quick else 250
